@@ -266,6 +266,39 @@ func (g *c09gen) directed() []c09page {
 			out = append(out, p)
 		}
 	}
+	// two or three columns that each open with a larger heading on one baseline; and a line of its own made of
+	// fragments without width (glyphs whose advance is unknown) above a two-column body
+	for _, variant := range []string{"twin-headings", "triple-headings", "zero-width-line"} {
+		ncol := 2
+		if variant == "triple-headings" {
+			ncol = 3
+		}
+		p := c09page{w: 612, h: 792, kind: fmt.Sprintf("%dcol+directed:%s", ncol, variant)}
+		add := func(s string, x, y, w, h float64) {
+			p.frags = append(p.frags, text.TextFragment{Text: s, X: x, Y: y, Width: w, Height: h, FontSize: h, FontName: "F1", Direction: text.LTR})
+			p.tokens = append(p.tokens, c09Tok.FindAllString(s, -1)...)
+		}
+		gap := 30.0
+		colW := (612 - 100 - gap*float64(ncol-1)) / float64(ncol)
+		for c := 0; c < ncol; c++ {
+			x0 := 50 + float64(c)*(colW+gap)
+			if variant != "zero-width-line" {
+				add(g.tok(), x0, 680, 90, 18)
+			}
+			for rw := 0; rw < 9; rw++ {
+				for x := x0; x+40 <= x0+colW; x += 42 {
+					add(g.tok(), x, 640-14*float64(rw), 36, 10)
+				}
+			}
+		}
+		if variant == "zero-width-line" {
+			// each on a line of its own: the visible extent of such a line is empty
+			add(g.tok(), 300, 700, 0, 10)
+			add(g.tok(), 80, 718, 0, 10)
+			add(g.tok(), 520, 736, 0, 10)
+		}
+		out = append(out, p)
+	}
 	return out
 }
 
@@ -436,7 +469,12 @@ func init() {
 			for _, e := range res.Elements {
 				et.WriteString(e.Text + "\n")
 			}
-			checkChars("elements-text", et.String())
+			// directed pages have a class of their own: the recorded finding is about the random pages
+			if i := strings.Index(p.kind, "+directed:"); i >= 0 {
+				checkChars("elements-text:"+p.kind[i+len("+directed:"):], et.String())
+			} else {
+				checkChars("elements-text", et.String())
+			}
 			if res.Paragraphs != nil {
 				checkChars("paragraphs-text", res.Paragraphs.GetText())
 			}
